@@ -31,7 +31,16 @@ use crate::{
 pub fn validate_jump_destination(counter: &RuntimeBoxedVal, vm: &mut VM) -> execution::Result<u32> {
     let instruction_pointer = vm.instruction_pointer()?;
     let jump_target = match counter.constant_fold().data() {
-        RSVD::KnownData { value, .. } => value.value_le().as_u32(),
+        RSVD::KnownData { value, .. } => {
+            // The target is a full 256-bit word, so it must not be truncated before it is
+            // checked against the code
+            if value.value_le() > ethnum::U256::from(u32::MAX) {
+                return Err(
+                    execution::Error::InvalidOffsetForJump { data: *value }.locate(instruction_pointer)
+                );
+            }
+            value.value_le().as_u32()
+        }
         _ => {
             return Err(execution::Error::NoConcreteJumpDestination.locate(instruction_pointer));
         }
